@@ -250,6 +250,69 @@ proof fn lemma_row_major(n: nat, m: nat, i: nat, j: nat, t: Layout)
     assert(i * (n * t.size) + j * t.size == (i * n + j) * t.size) by (nonlinear_arith);
 }
 ''')
+
+    # ---- C19: the ConstDefault impls initialise every field, and the zeroize impl hands zeroize the full mutable slice ----
+    cd = g.src('src/impl_const_default.rs')
+    def init_of(struct):
+        m = re.search(r'impl<[^>]*>\s*ConstDefault for ' + struct + r'<[^>]*>\s*(?:where[^{]*)?\{\s*const DEFAULT: Self = Self \{([^}]*)\};', cd)
+        if not m:
+            raise ex.Unsupported('ConstDefault impl for %s is not a struct literal `Self { .. }`' % struct)
+        fields = {}
+        for fm in re.finditer(r'(\w+)\s*:\s*([^,]+),?', m.group(1)):
+            fields[fm.group(1)] = ' '.join(fm.group(2).split())
+        return fields, cd[:m.start()].count('\n') + 1
+    def count(struct_parsed, inits):
+        cu = ct = 0
+        for fname, fty in struct_parsed['fields']:
+            v = inits.get(fname)
+            k = field_kind(fty)
+            if k == 'U' and v == 'U::DEFAULT':
+                cu += 1
+            elif k == 'T' and v == 'T::DEFAULT':
+                ct += 1
+            elif k == 'P' and re.match(r'(core::marker::)?PhantomData$', v or ''):
+                pass
+            else:
+                raise ex.Unsupported('ConstDefault for %s: field %s: %s is initialised with %r' % (struct_parsed['name'], fname, fty, v))
+        return cu, ct
+    iE, lE = init_of(nodeE)
+    iO, lO = init_of(nodeO)
+    iG, lG = init_of('GenericArray')
+    cuE, ctE = count(stE, iE)
+    cuO, ctO = count(stO, iO)
+    if iG.get('data') != 'ConstDefault::DEFAULT':
+        raise ex.Unsupported('ConstDefault for GenericArray: data is initialised with %r' % iG.get('data'))
+    g.raw("""
+// generated from src/impl_const_default.rs:%d,%d,%d: number of leaves of storage(n) that are initialised with T::DEFAULT
+//   even node: %d halves initialised with U::DEFAULT, %d elements with T::DEFAULT;  odd node: %d halves, %d elements
+pub open spec fn default_leaves(n: nat) -> nat
+    decreases n
+{
+    if n == 0 { 0 } else if n %% 2 == 0 { %d * default_leaves(n / 2) + %d } else { %d * default_leaves(n / 2) + %d }
+}
+proof fn lemma_const_default(n: nat)
+    ensures default_leaves(n) == slots(n) && default_leaves(n) == n, /*OB:lemma_const_default.every-one-of-the-N-slots-is-T-DEFAULT:C19*/
+    decreases n
+{
+    lemma_slots(n);
+    if n > 0 { lemma_const_default(n / 2); lemma_slots(n / 2); }
+}
+""" % (lE, lO, lG, cuE, ctE, cuO, ctO, cuE, ctE, cuO, ctO))
+    zt = g.src('src/impl_zeroize.rs')
+    mz = re.search(r'impl<T: Zeroize, N: ArrayLength> Zeroize for GenericArray<T, N>\s*\{\s*fn zeroize\(&mut self\)\s*\{([^}]*)\}', zt)
+    if not mz:
+        raise ex.LostAnchor('Zeroize impl not found')
+    zbody = ' '.join(mz.group(1).split())
+    if zbody != 'self.as_mut_slice().iter_mut().zeroize()':
+        raise ex.Unsupported('zeroize is not `self.as_mut_slice().iter_mut().zeroize()` (delegation to the full mutable slice): %s' % zbody)
+    g.raw("""
+// src/impl_zeroize.rs:%d  `fn zeroize(&mut self) { self.as_mut_slice().iter_mut().zeroize() }`
+// as_mut_slice is the full view of N elements (proved in unit `views`); zeroize's own impl for IterMut zeroizes every item it
+// yields (assumed contract of the dependency); so the elements reached are exactly the N slots:
+proof fn lemma_zeroize_reaches_every_slot(n: nat)
+    ensures slots(n) == n, /*OB:lemma_zeroize.the-full-mutable-slice-has-all-N-slots:C19*/
+{ lemma_slots(n); }
+""" % (zt[:mz.start()].count('\n') + 1))
     # ---- C11: the type-level length expression of each Flatten / Unflatten impl gives the same extent ----
     seq = g.src('src/sequence.rs')
     outs = re.findall(r'unsafe impl<([^>]*)> (Flatten|Unflatten)<T, (\w+), (\w+)> for (&\'a mut |&\'a )?GenericArray<([^{]*?)>\s*where[^{]*\{\s*type Output = (&\'a mut |&\'a )?GenericArray<([^;]*)>;', seq)
